@@ -583,6 +583,8 @@ func (fx *FX) mergeInto(st *State, g T, s2 *State) {
 	st.Pooled = fx.def("pooled", ite(g, s2.Pooled, st.Pooled))
 	st.Released = fx.def("released", ite(g, s2.Released, st.Released))
 	st.Frozen = fx.def("frozen", ite(g, s2.Frozen, st.Frozen))
+	st.Now = ite(g, s2.Now, st.Now)
+	st.NowN = ite(g, s2.NowN, st.NowN)
 }
 
 // callPureParam: a function-typed parameter treated as a deterministic total function
